@@ -31,52 +31,6 @@ def u8(c):
     return len(c.encode("utf-8"))
 
 
-# ---- the three known classes, as in Loc/LineCol.v (k_sep, k_col, k_eof)
-
-def k_sep(cs, off):
-    for c in cs:
-        if off < u8(c):
-            return False
-        if c in (VT, FF, NEL, LS, PS):
-            return True
-        off -= u8(c)
-    return False
-
-
-def k_col(cs, off):
-    acc, i = False, 0
-    while i < len(cs):
-        c = cs[i]
-        if off == 0:
-            return acc
-        if off < u8(c):
-            return True
-        if c == "\n":
-            off, acc, i = off - 1, False, i + 1
-        elif c == "\r":
-            if i + 1 < len(cs) and cs[i + 1] == "\n":
-                if off == 1:
-                    return acc
-                off, acc, i = off - 2, False, i + 2
-            else:
-                off, acc, i = off - 1, False, i + 1
-        else:
-            off, acc, i = off - u8(c), acc or u8(c) > 1, i + 1
-    return acc
-
-
-def k_eof(cs, off):
-    return off == sum(u8(c) for c in cs) and len(cs) > 0 and cs[-1] in ("\n", "\r")
-
-
-def classes_at(s, off):
-    """(sep, col, eof) for text s (a Python str) and byte offset off"""
-    return k_sep(s, off), k_col(s, off), k_eof(s, off)
-
-
-CLASS_NAMES = ("extra_separator_before_offset", "multibyte_before_offset_on_line", "end_of_text_after_terminator")
-
-
 def salted(rng, doc, heavy):
     out = []
     for ch in doc:
@@ -126,64 +80,16 @@ def run(ctx):
     ctx.cov["families"]["c11_linecol"]["offsets"] = n_offsets
     ctx.cov["families"]["c11_linecol_vs_model"] = ctx.cov["families"].pop("c11_linecol")
 
-    # --- (C) the same observations vs the specification; differences must lie in the known classes
-    stats = {n: {"offsets_in_class": 0, "offsets_differing": 0} for n in CLASS_NAMES}
-    stats["offsets_equal_to_spec"] = 0
-    stats["offsets_differing_outside_classes"] = 0
-
-    def split_spec(mo):
-        vals, flags = [], []
-        for x in mo.split(","):
-            v, f = x.split("/")
-            vals.append(v)
-            flags.append(f)
-        return vals, flags
-
-    def compare(iobs, mo):
-        return iobs.split(",") == split_spec(mo)[0]
-
-    def classify(c, iobs, mo):
-        s = unhexs(c)
-        got = iobs.split(",")
-        vals, flags = split_spec(mo)
-        if len(got) != len(vals):
-            return None
-        needed = []
-        for off, (g, v, f) in enumerate(zip(got, vals, flags)):
-            if g == v:
-                continue
-            mine = classes_at(s, off)
-            if "".join("1" if b else "0" for b in mine) != f:
-                raise MachineryError(f"driver's C11 classes differ from the extracted ones at offset {off} of {c}: {mine} vs {f}")
-            cls = [n for n, b in zip(CLASS_NAMES, mine) if b]
-            if not cls:
-                return None
-            needed.append(cls[0])
-        known = {k["class"] for k in ctx.known}
-        if not needed or not set(needed) <= known:
-            return None
-        uniq = sorted(set(needed))
-        for extra in uniq[1:]:
-            ctx.known_hit(extra)
-        return uniq[0]
-
-    rows2 = ctx.correspond(impl, model, "c11_linecol", cases, classify=classify, compare=compare,
+    # --- (C) the same observations vs the specification (no known class: any difference is a violation)
+    rows2 = ctx.correspond(impl, model, "c11_linecol", cases,
                            nontrivial=lambda c, o: True, describe=lambda c: repr(unhexs(c)),
                            model_family="c11_linecol_spec")
     ctx.cov["families"]["c11_linecol_vs_spec"] = ctx.cov["families"].pop("c11_linecol")
-    for c, i, m in rows2:
-        vals, flags = split_spec(m)
-        for g, v, f in zip(i.split(","), vals, flags):
-            if g == v:
-                stats["offsets_equal_to_spec"] += 1
-            elif f == "000":
-                stats["offsets_differing_outside_classes"] += 1
-            for n, b in zip(CLASS_NAMES, f):
-                if b == "1" and v != "none":
-                    stats[n]["offsets_in_class"] += 1
-                    if g != v:
-                        stats[n]["offsets_differing"] += 1
-    ctx.cov["spec_comparison"] = stats
+    # informational: on how many texts the code before 7d9a6a9 (ariadne line table, byte columns) would differ
+    old = run_family(model, "c11_linecol_old", cases)
+    n_old = sum(1 for (c, i, m), o in zip(rows2, old) if o != m)
+    n_old_off = sum(sum(1 for x, y in zip(o.split(","), m.split(",")) if x != y) for (c, i, m), o in zip(rows2, old))
+    ctx.cov["spec_comparison"] = {"texts_where_the_pre_fix_code_differs": n_old, "offsets_where_the_pre_fix_code_differs": n_old_off}
 
     # --- get_line_column_range on all pairs of offsets of very short texts, sampled pairs of longer ones
     rcases = []
@@ -222,16 +128,14 @@ def run(ctx):
         f"texts: every string of length <= {maxlen} over {[a.encode('unicode_escape').decode() for a in ALPHA]} (0- and 1-byte files included), "
         f"{len(DOCS)} document templates x {ndocs} saltings of comments/strings/descriptions with é 中 🚀 FF VT U+0085 U+2028 U+2029 "
         "lone CR, CRLF and varied token separators, hand-written boundary texts.  For each text get_line_column at EVERY byte offset "
-        "0..=len+1 is compared with the model of the code (must be equal) and with the specification (differences must lie in the "
-        "three known classes).  get_line_column_range on all offset pairs of texts of length <= 2 plus sampled pairs.  For each "
+        "0..=len+1 is compared with the model of the code and with the specification (both must be equal).  get_line_column_range on all offset pairs of texts of length <= 2 plus sampled pairs.  For each "
         "document every node/name location of ast::Document, Schema and ExecutableDocument and every diagnostic is checked by the "
         "oracle (in file, on char boundaries, name text = slice, all line_column paths agree, JSON location = conversion of the span).")
     ctx.cov["exhaustive"] = f"short strings up to length {maxlen}, every offset"
     ctx.assumptions += [
-        "the line table of ariadne 0.6.0 (Source::from, get_byte_line) is modelled from its source; binary_search_by_key is modelled "
-        "as the last line whose start is <= the offset (keys strictly increasing)",
+        "the pre-fix behaviour (ariadne 0.6.0 line table) is kept only as lc_impl_line_col_old for the refuted witnesses",
         "spans (name location = name text, nodes inside the file) are checked on the implementation only: the parser model is not part of this property's model",
-        "the rendered text report (ariadne's own `path:line:col` header) is not compared",
+        "the rendered text report: its `path:line:col` header and line numbering are printed by ariadne itself and are NOT covered",
     ]
     return ctx.finish(props)
 
